@@ -25,6 +25,9 @@ func NewCol(typ string) (proto.Column, error) {
 }
 
 func newCol(rt *refproto.Type) (proto.Column, error) {
+	if rt.Name == "JSON" {
+		return new(proto.ColJSONStr), nil
+	}
 	switch rt.Kind {
 	case refproto.KTuple:
 		if rt.Name == "Point" {
@@ -66,6 +69,8 @@ func newCol(rt *refproto.Type) (proto.Column, error) {
 		}
 	case refproto.KArray:
 		switch rt.Name {
+		case "Array(JSON)":
+			return new(proto.ColJSONStr).Array(), nil
 		case "Array(Array(String))":
 			return proto.NewArray[[]string](new(proto.ColStr).Array()), nil
 		case "Array(Array(UInt64))":
